@@ -642,6 +642,90 @@ pub fn gen_ocsp_response(t: &mut Tape, budget: usize) -> Vec<u8> {
     e.buf
 }
 
+/// one OID filter with a real certificate-extension OID and a DER-shaped value
+pub fn gen_oid_filter(t: &mut Tape) -> (Vec<u8>, Vec<u8>) {
+    match t.below(4) {
+        0 => (vec![0x06, 0x03, 0x55, 0x1d, 0x0f], match t.below(4) {
+            0 => vec![0x03, 0x02, 0x07, 0x80],
+            1 => vec![0x03, 0x03, 0x07, t.u8(), 0x80],
+            2 => vec![0x03, 0x02, 0x05, 0xa0],
+            _ => vec![0x03, 0x01, 0x00],
+        }),
+        1 => {
+            // extKeyUsage: SEQUENCE OF 8-byte-DER purposes, 1 .. 20 of them (16 and more need the long length form)
+            let n = t.pick(&[1usize, 2, 12, 13, 15, 16, 20]);
+            let mut body = Vec::new();
+            for k in 0..n {
+                body.extend_from_slice(&[0x06, 0x08, 0x2b, 0x06, 0x01, 0x05, 0x05, 0x07, 0x03, 1 + k as u8]);
+            }
+            let mut e = Enc::new();
+            e.u8(0x30);
+            der_len(&mut e, body.len(), false);
+            e.bytes(&body);
+            (vec![0x06, 0x03, 0x55, 0x1d, 0x25], e.buf)
+        }
+        2 => (vec![0x06, 0x03, 0x55, 0x1d, 0x13], vec![0x30, 0x03, 0x01, 0x01, 0xff]),
+        _ => (vec![0x06, 0x03, 0x55, 0x1d, 0x11], t.small_blob(40)),
+    }
+}
+
+/// a timestamp in milliseconds since 1970 on a calendar boundary: first / last millisecond of a year, around the end of February, for
+/// ordinary years, leap years, century years (2100, 2200, 2300 are not leap years; 2000 and 2400 are) and the years 9999 / 10000
+pub fn gen_calendar_ms(t: &mut Tape) -> u64 {
+    fn days_from_civil(y: i64, m: i64, d: i64) -> i64 {
+        let y = if m <= 2 { y - 1 } else { y };
+        let era = if y >= 0 { y } else { y - 399 } / 400;
+        let yoe = y - era * 400;
+        let doy = (153 * (if m > 2 { m - 3 } else { m + 9 }) + 2) / 5 + d - 1;
+        let doe = yoe * 365 + yoe / 4 - yoe / 100 + doy;
+        era * 146097 + doe - 719468
+    }
+    let y = t.pick(&[1970i64, 1972, 1999, 2000, 2001, 2024, 2038, 2099, 2100, 2101, 2200, 2201, 2300, 2301, 2400, 2401, 2500, 2501, 9999, 10000]);
+    let (m, d) = t.pick(&[(1i64, 1i64), (12, 31), (2, 28), (3, 1), (12, 30), (1, 2), (6, 15)]);
+    let base = days_from_civil(y, m, d) * 86_400_000;
+    let off = t.pick(&[0i64, 1, 86_399_999, 86_400_000, -1, 43_200_000]);
+    (base + off).max(0) as u64
+}
+
+/// an extension block of the kind that NEGOTIATES how later records look (a parser that keeps state between records might act on
+/// it): max_fragment_length (codes 1..4 and others), heartbeat (modes 1, 2), record_size_limit (small and large), connection_id,
+/// supported_versions in the client and the server form, extended_master_secret, encrypt_then_mac. Returns (block, connection id)
+pub fn gen_negotiation_ext(t: &mut Tape) -> (Vec<u8>, Vec<u8>) {
+    let mut e = Enc::new();
+    let cid_len = t.pick(&[0usize, 4, 8]);
+    let cid = t.bytes(cid_len);
+    let mut ext = |e: &mut Enc, ty: u16, body: &[u8]| {
+        e.u16(ty);
+        e.vec(2, "neg.ext", body);
+    };
+    let n = 1 + t.below(4);
+    for _ in 0..n {
+        match t.below(8) {
+            0 | 1 => {
+                let c = t.pick(&[1u8, 2, 3, 4, 1, 0, 5]);
+                ext(&mut e, 1, &[c])
+            }
+            2 => {
+                let m = t.pick(&[1u8, 2, 2, 0, 3]);
+                ext(&mut e, 15, &[m])
+            }
+            3 => {
+                let v = t.pick(&[63u16, 64, 512, 16385]);
+                ext(&mut e, 28, &[(v >> 8) as u8, v as u8]);
+            }
+            4 => {
+                let mut b = vec![cid.len() as u8];
+                b.extend_from_slice(&cid);
+                ext(&mut e, 54, &b);
+            }
+            5 => ext(&mut e, 43, if t.bool() { &[3, 4] } else { &[4, 3, 4, 3, 3] }),
+            6 => ext(&mut e, 23, &[]),
+            _ => ext(&mut e, 22, &[]),
+        }
+    }
+    (e.buf, cid)
+}
+
 /// an ECDSA signature value as it travels inside DigitallySigned: DER SEQUENCE of two INTEGERs, with the values a verifier must
 /// look at twice (zero, one, leading zero octet, 32 / 33 octets)
 pub fn gen_der_ecdsa_sig(t: &mut Tape) -> Vec<u8> {
@@ -670,6 +754,12 @@ pub fn gen_der_ecdsa_sig(t: &mut Tape) -> Vec<u8> {
     let mut o = vec![0x30, (r.len() + s2.len()) as u8];
     o.extend(r);
     o.extend(s2);
+    // now and then in a fixed-size field: the DER value followed by zero octets (or by other bytes) - the vector is opaque, all of it is the signature
+    match t.below(10) {
+        0 => o.extend(std::iter::repeat(0).take(1 + t.below(8))),
+        1 => o.extend(t.small_blob(6)),
+        _ => {}
+    }
     o
 }
 
@@ -838,6 +928,25 @@ pub fn gen_hs_kind(t: &mut Tape, kind: usize, budget: usize) -> MHs {
                 let c = if n > 8 { vec![i as u8; i % 2] } else { t.blob(left.min(600)) };
                 left = left.saturating_sub(c.len() + 2);
                 cas.push(c);
+            }
+            if t.chance(20) && b >= 80 {
+                // the layout WITHOUT signature algorithms (TLS 1.0 / 1.1) whose CA names, read as (type, length, data), chain like
+                // an extension list: a name of 13 bytes starting with its own length minus two reads as signature_algorithms, one
+                // of 47 bytes as certificate_authorities - the TLS 1.3 form of this message (context + extensions) has the same outer shape
+                let mut cas = Vec::new();
+                let algs: Vec<u8> = [0x04u8, 0x03, 0x05, 0x03, 0x06, 0x03, 0x08, 0x04][..2 * (1 + t.below(4))].to_vec();
+                // 13-byte name: u16 (11) | u16 list length | algorithms | filler
+                let mut n13 = vec![0u8, 11, 0, algs.len() as u8];
+                n13.extend(&algs);
+                n13.resize(13, 0x31);
+                cas.push(n13);
+                if t.bool() {
+                    let mut n47 = vec![0u8, 45, 0, 43, 0, 41];
+                    n47.resize(47, 0x41);
+                    cas.push(n47);
+                }
+                let types = if t.bool() { vec![1u8] } else { types.into_iter().take(3).collect() };
+                return MHs::CertificateRequest { types, sigalgs: None, cas };
             }
             MHs::CertificateRequest { types, sigalgs, cas }
         }
@@ -1092,7 +1201,7 @@ pub fn gen_ext_known(t: &mut Tape, idx: usize, budget: usize) -> MExt {
         21 => MExt::Padding(t.blob(b.min(600))),
         22 => MExt::EncryptThenMac,
         23 => MExt::ExtendedMasterSecret,
-        28 => MExt::RecordSizeLimit(t.u16b()),
+        28 => MExt::RecordSizeLimit(if t.chance(120) { t.pick(&[0u16, 1, 63, 64, 65, 512, 16383, 16384, 16385, 0xffff]) } else { t.u16b() }),
         35 => MExt::SessionTicket(t.blob(b.min(600))),
         40 => MExt::KeyShareOld(if t.chance(90) { let g = COMMON_GROUPS[t.below(COMMON_GROUPS.len())]; vec![(g >> 8) as u8, g as u8] } else if t.chance(90) { gen_key_share_content(t, b.min(300)) } else { t.blob(b.min(300)) }),
         41 => MExt::PreSharedKey(if t.chance(170) { gen_psk_content(t, b.min(400)) } else { t.blob(b.min(300)) }),
@@ -1111,7 +1220,9 @@ pub fn gen_ext_known(t: &mut Tape, idx: usize, budget: usize) -> MExt {
             if n > 4 {
                 return MExt::OidFilters((0..n).map(|i| (vec![1u8; i % 2], vec![])).collect());
             }
-            MExt::OidFilters((0..n).map(|_| (t.small_blob(b.min(60) / 2), t.small_blob(b.min(200) / 2))).collect())
+            // arbitrary bytes, or what RFC 8446 4.2.5 really carries: the DER OID of a certificate extension (keyUsage, extKeyUsage,
+            // basicConstraints, subjectAltName) and a DER value (BIT STRING of one or two octets, SEQUENCE OF OID in short and long form)
+            MExt::OidFilters((0..n).map(|_| if t.chance(110) { gen_oid_filter(t) } else { (t.small_blob(b.min(60) / 2), t.small_blob(b.min(200) / 2)) }).collect())
         }
         49 => MExt::PostHandshakeAuth,
         51 => {
@@ -1531,6 +1642,23 @@ pub fn gen_dtls_hs(t: &mut Tape, budget: usize) -> MDtlsHs {
 }
 
 pub fn gen_dtls_record(t: &mut Tape) -> MDtlsRecord {
+    let mut r = gen_dtls_record_plain(t);
+    if t.chance(12) {
+        // a relation between header and body: epoch and sequence number equal to the first eight payload bytes (what the explicit
+        // nonce of an AEAD-protected record looks like) - a plaintext record all the same
+        let mut e = Enc::new();
+        for m in &r.msgs {
+            m.encode(&mut e);
+        }
+        if e.buf.len() >= 8 {
+            r.epoch = (e.buf[0] as u16) << 8 | e.buf[1] as u16;
+            r.seq = e.buf[2..8].iter().fold(0u64, |a, b| a << 8 | *b as u64);
+        }
+    }
+    r
+}
+
+fn gen_dtls_record_plain(t: &mut Tape) -> MDtlsRecord {
     let version = if t.chance(160) { t.pick(&[0xfefdu16, 0xfeff]) } else { t.u16b() };
     let epoch = t.u16b();
     let seq = match t.weighted(&[3, 3, 4]) {
@@ -1726,7 +1854,7 @@ fn well_known_primes() -> &'static Vec<Vec<u8>> {
 
 pub fn gen_ec_params(t: &mut Tape) -> MEcParams {
     if t.chance(150) {
-        MEcParams::Named(t.u16b())
+        MEcParams::Named(if t.chance(100) { [0x001du16, 0x0017, 0x0018, 0x001e][t.below(4)] } else { t.u16b() })
     } else {
         let mut p = t.blob(255);
         if t.chance(70) {
@@ -1745,6 +1873,18 @@ pub fn gen_ec_params(t: &mut Tape) -> MEcParams {
     }
 }
 
+/// the X25519 public values implementations single out: the small-order points (0, 1, the two order-8 points, p-1, p, p+1) and the base point 9
+pub const X25519_SPECIAL: [[u8; 32]; 8] = [
+    [0; 32],
+    [1, 0, 0, 0, 0, 0, 0, 0, 0, 0, 0, 0, 0, 0, 0, 0, 0, 0, 0, 0, 0, 0, 0, 0, 0, 0, 0, 0, 0, 0, 0, 0],
+    [0xe0, 0xeb, 0x7a, 0x7c, 0x3b, 0x41, 0xb8, 0xae, 0x16, 0x56, 0xe3, 0xfa, 0xf1, 0x9f, 0xc4, 0x6a, 0xda, 0x09, 0x8d, 0xeb, 0x9c, 0x32, 0xb1, 0xfd, 0x86, 0x62, 0x05, 0x16, 0x5f, 0x49, 0xb8, 0x00],
+    [0x5f, 0x9c, 0x95, 0xbc, 0xa3, 0x50, 0x8c, 0x24, 0xb1, 0xd0, 0xb1, 0x55, 0x9c, 0x83, 0xef, 0x5b, 0x04, 0x44, 0x5c, 0xc4, 0x58, 0x1c, 0x8e, 0x86, 0xd8, 0x22, 0x4e, 0xdd, 0xd0, 0x9f, 0x11, 0x57],
+    [0xec, 0xff, 0xff, 0xff, 0xff, 0xff, 0xff, 0xff, 0xff, 0xff, 0xff, 0xff, 0xff, 0xff, 0xff, 0xff, 0xff, 0xff, 0xff, 0xff, 0xff, 0xff, 0xff, 0xff, 0xff, 0xff, 0xff, 0xff, 0xff, 0xff, 0xff, 0x7f],
+    [0xed, 0xff, 0xff, 0xff, 0xff, 0xff, 0xff, 0xff, 0xff, 0xff, 0xff, 0xff, 0xff, 0xff, 0xff, 0xff, 0xff, 0xff, 0xff, 0xff, 0xff, 0xff, 0xff, 0xff, 0xff, 0xff, 0xff, 0xff, 0xff, 0xff, 0xff, 0x7f],
+    [0xee, 0xff, 0xff, 0xff, 0xff, 0xff, 0xff, 0xff, 0xff, 0xff, 0xff, 0xff, 0xff, 0xff, 0xff, 0xff, 0xff, 0xff, 0xff, 0xff, 0xff, 0xff, 0xff, 0xff, 0xff, 0xff, 0xff, 0xff, 0xff, 0xff, 0xff, 0x7f],
+    [9, 0, 0, 0, 0, 0, 0, 0, 0, 0, 0, 0, 0, 0, 0, 0, 0, 0, 0, 0, 0, 0, 0, 0, 0, 0, 0, 0, 0, 0, 0, 0],
+];
+
 pub fn gen_ecdh(t: &mut Tape) -> MEcdh {
     let params = gen_ec_params(t);
     // relations between the fields a validating parser might look for: the public point equal to the curve's base point, the point at
@@ -1757,13 +1897,22 @@ pub fn gen_ecdh(t: &mut Tape) -> MEcdh {
             v
         }
         (_, 3) => vec![0],
+        (MEcParams::Named(0x001d), 4 | 5 | 6) => X25519_SPECIAL[t.below(X25519_SPECIAL.len())].to_vec(),
         _ => t.blob(255),
     };
     MEcdh { params, public }
 }
 
 pub fn gen_signed(t: &mut Tape, with_alg: bool) -> MSigned {
-    MSigned { alg: if with_alg { Some(gen_sig_alg(t)) } else { None }, data: if t.chance(70) { gen_der_ecdsa_sig(t) } else { t.blob(65535) } }
+    let data = if t.chance(70) { gen_der_ecdsa_sig(t) } else { t.blob(65535) };
+    let mut alg = if with_alg { Some(gen_sig_alg(t)) } else { None };
+    if with_alg && t.chance(24) && data.len() + 2 <= 65535 {
+        // the two algorithm octets, read as a u16, equal the number of bytes that follow them (length field + signature): what the
+        // layout WITHOUT algorithm octets would look like
+        let v = data.len() + 2;
+        alg = Some(((v >> 8) as u8, v as u8));
+    }
+    MSigned { alg, data }
 }
 
 pub fn gen_sct(t: &mut Tape, budget: usize) -> MSct {
@@ -1795,9 +1944,14 @@ pub fn gen_sct(t: &mut Tape, budget: usize) -> MSct {
         id[2] = 6;
         id[3] = l - 2;
     }
-    let (hash, sign) = gen_sig_alg(t);
+    let (mut hash, mut sign) = gen_sig_alg(t);
     let signature = if t.chance(60) { gen_der_ecdsa_sig(t) } else { signature };
-    MSct { version: if t.chance(128) { 0 } else { t.u8() }, id, timestamp: t.u64b(), extensions, hash, sign, alg_present: true, signature }
+    if t.chance(16) {
+        let v = signature.len() + 2;
+        hash = (v >> 8) as u8;
+        sign = v as u8;
+    }
+    MSct { version: if t.chance(128) { 0 } else { t.u8() }, id, timestamp: if t.chance(90) { gen_calendar_ms(t) } else { t.u64b() }, extensions, hash, sign, alg_present: true, signature }
 }
 
 pub fn gen_sct_list(t: &mut Tape) -> Vec<MSct> {
